@@ -292,11 +292,21 @@ class Model(core.BfsModel):
                 want = ref.walkable(k[1], k[2])
                 if got != want:
                     bad("walkable" + ("" if k[1] is None else "(service)"), sorted(got), sorted(want))
-        # by-key answers must be the very instance that is in the verified set
+        # every lookup must hand out the very Peer instance that is in the verified set (a stale twin of the same
+        # key carries old addresses: callers would walk to, or exclude, the wrong addresses)
+        live = list(net.verified_peers)
         for p in range(self.n_peers):
             r = net.get_verified_by_public_key_bin(self.keys[p])
-            if r is not None and not any(r is x for x in net.verified_peers):
+            if r is not None and not any(r is x for x in live):
                 bad("by_key-instance", "a Peer object that is not the verified one", "the verified instance")
+        for a in range(self.n_addrs):
+            r = net.get_verified_by_address(ADDRS[a])
+            if r is not None and not any(r is x for x in live):
+                bad("by_address-instance", "a Peer object that is not the verified one", "the verified instance")
+        for sv in range(self.n_services):
+            for r in net.get_peers_for_service(SERVICES[sv]):
+                if not any(r is x for x in live):
+                    bad("for_service-instance", "a Peer object that is not the verified one", "the verified instance")
         # asking never changes the answer
         second = self._ask_all(net)
         for k in first:
@@ -327,7 +337,7 @@ def configs(ctx: core.Ctx) -> list[tuple[Model, int]]:
             (Model(3, 3, 1, ctx.seed, bl_addrs=(2,), bl_peers=(1,)), 4),
         ]
     return [
-        (Model(2, 2, 1, ctx.seed), 4),
+        (Model(2, 2, 1, ctx.seed), 5),
         (Model(3, 3, 2, ctx.seed), 3),
         (Model(2, 2, 1, ctx.seed, bl_addrs=(0,), bl_peers=(1,)), 4),
     ]
